@@ -386,6 +386,13 @@ func runTwoServer(sc *scenario, b run.Batch, r *ev.Result) {
 			return
 		}
 		trace("server %d is stopped, loses equipment-reports.dat and is started again; server %d refuses the next round", Y, X)
+		// nothing is forwarded to the port of the instance that is going away (a datagram forwarded
+		// into the gap would be counted as forwarded and never handled)
+		sd[Y].relay.SetPhase("restart", func(uint32, int) Fate { return Drop })
+		if err := sd[Y].relay.Barrier(); err != nil {
+			inconc("%v", err)
+			return
+		}
 		if err := sd[Y].w.Close(); err != nil {
 			inconc("close of server %d: %v", Y, err)
 			return
@@ -403,6 +410,7 @@ func runTwoServer(sc *scenario, b run.Batch, r *ev.Result) {
 			return
 		}
 		sd[Y].proxy.SetTarget(sd[Y].w.TCP)
+		sd[Y].relay.SetPhase("rounds", nil)
 		sd[X].proxy.SetPlan([]TCPFate{{Kind: "refuse"}, {Kind: "refuse"}, {Kind: "refuse"}})
 		okD, ok := round("round D")
 		sd[X].proxy.SetPlan(nil)
